@@ -421,6 +421,11 @@ func streamOwns(v ssa.Value, pool, recv ssa.Value) bool {
 // monitorRule: every Signal/Broadcast on a sync.Cond is executed with the cond's L held, or
 // after an Unlock of L that dominates it (a critical section precedes it on all paths).
 func monitorRule(r *Report, rule string, scope func(*ssa.Function) bool) {
+	monitorRuleAlias(r, rule, scope, nil)
+}
+
+// monitorRuleAlias is monitorRule with a lock-name normalisation (two conds sharing one mutex).
+func monitorRuleAlias(r *Report, rule string, scope func(*ssa.Function) bool, alias func(string) string) {
 	for _, fn := range r.P.ModuleFuncs() {
 		if !scope(TopFunc(fn)) {
 			continue
@@ -431,16 +436,26 @@ func monitorRule(r *Report, rule string, scope func(*ssa.Function) bool) {
 		}
 		ls := ComputeLockSets(fn, map[string]bool{})
 		for _, s := range sites {
-			cond := Desc(s.Call().Common().Args[0])
-			cond = strings.TrimPrefix(cond, "&")
+			cond := DescDeep(s.Call().Common().Args[0])
+			if _, isAddr := s.Call().Common().Args[0].(*ssa.FieldAddr); isAddr {
+				cond = strings.TrimPrefix(cond, "&") // a sync.Cond value field: &x.cond
+			}
 			lock := cond + ".L"
 			held := ls.At(s)
+			if alias != nil {
+				lock = alias(lock)
+				h2 := map[string]bool{}
+				for l := range held {
+					h2[alias(l)] = true
+				}
+				held = h2
+			}
 			ok := held[lock]
 			if !ok {
 				// a dominating unlock of the same lock
 				for _, b := range fn.Blocks {
 					for i, in := range b.Instrs {
-						if op, l, isl := LockOp(in); isl && op == "unlock" && l == lock {
+						if op, l, isl := LockOp(in); isl && op == "unlock" && (l == lock || (alias != nil && alias(l) == lock)) {
 							if Dominates(Site{fn, b, i, in}, s) {
 								ok = true
 							}
